@@ -1,6 +1,7 @@
 pub mod converter;
 
 pub mod fn_params;
+pub mod fragments;
 
 use std::ops::Deref;
 
